@@ -118,11 +118,11 @@ class Player:
             ms, exc = None, (type(e).__name__, str(e)[:120])
             self.dead = True
         ctx = (it.context.get('v'), it.context.get('z'), len(it.context.get('w', ())), len(it.context.get('u', [[]])[0]),
-               getattr(it.context.get('box'), 'n', None), len(it.context['SINK'].got) if 'SINK' in it.context else None)
+               getattr(it.context.get('box'), 'n', None), len(it.context['SINK'].got) if 'SINK' in it.context else None, it.context.get('__n__'))
         return (sig(ms), it.configuration, ctx, exc, P.log[mark:], it.time, it.final)
 
 
-def fresh(sp, cond_truth, echoes=(), watch=None, realclock=None, sink=False):
+def fresh(sp, cond_truth, echoes=(), watch=None, realclock=None, sink=False, dunder=()):
     P = Probe()
     P.cond_truth = dict(cond_truth)
     sc = build_api(sp)
@@ -139,6 +139,12 @@ def fresh(sp, cond_truth, echoes=(), watch=None, realclock=None, sink=False):
     ictx = {'P': P}
     if sink:
         ictx['SINK'] = Sink()
+    if dunder:
+        # a context variable whose name starts with two underscores, counted up by the entry code of some states
+        ictx['__n__'] = 0
+        for name in dunder:
+            st_ = sc.state_for(name)
+            st_.on_entry = (st_.on_entry or 'pass') + '\n__n__ = __n__ + 1'
     it = Interpreter(sc, clock=clock, initial_context=ictx, ignore_contract=False)
     if sink:
         it.bind(ictx['SINK'].deliver)
@@ -212,7 +218,11 @@ def prepare(ch, tier, res):
     sink = fs.flag(1, 3)
     if sink:
         res.stats['runs_bound_to_a_component_object'] += 1
-    control = fresh(sp, cond_truth, echoes, watch, realclock, sink)
+    echoed = {e[0] for e in echoes}
+    dunder = tuple(n_ for n_ in sp.states if n_ not in echoed and fs.flag(1, 2)) if fs.flag(1, 4) else ()
+    if dunder:
+        res.stats['runs_with_a_double_underscore_context_variable'] += 1
+    control = fresh(sp, cond_truth, echoes, watch, realclock, sink, dunder)
     script, outs = [], []
     n = ops.int(4, 25 if tier == 'quick' else 40)
     uid = 0
@@ -236,14 +246,14 @@ def prepare(ch, tier, res):
             res.stats['control_ended_by_property_statechart' if outs[-1][3][0] == 'PropertyStatechartError' else 'control_ended_by_contract_error'] += 1
             break
     return dict(sp=sp, cond_truth=cond_truth, echoes=echoes, watch=watch, realclock=realclock, script=script, outs=outs, fs=fs,
-                control=control, sink=sink)
+                control=control, sink=sink, dunder=dunder)
 
 
 def _run(ch, tier):
     res = Result()
     g = prepare(ch, tier, res)
     sp, cond_truth, echoes, watch, realclock = g['sp'], g['cond_truth'], g['echoes'], g['watch'], g['realclock']
-    script, outs, fs, control, sink = g['script'], g['outs'], g['fs'], g['control'], g['sink']
+    script, outs, fs, control, sink, dunder = g['script'], g['outs'], g['fs'], g['control'], g['sink'], g['dunder']
     PROTOCOL[0] = fs.pick([None, 2, 3, 4, 5, 0])
     bounds = list(range(1, len(script)))     # snapshot taken before script[b]
     if not bounds:
@@ -255,7 +265,7 @@ def _run(ch, tier):
     cfp = fp((sp.fingerprint(), [repr(o) for o in script]))
     for b in bounds:
         for kind in ('pickle', 'deepcopy'):
-            orig = fresh(sp, cond_truth, echoes, watch, realclock, sink)
+            orig = fresh(sp, cond_truth, echoes, watch, realclock, sink, dunder)
             for i in range(b):
                 orig.play(script[i])
             try:
@@ -340,7 +350,7 @@ def xp_child(argv):
                 continue
             path = os.path.join(outdir, '%d.pkl' % i)
             if mode == 'dump':
-                orig = fresh(g['sp'], g['cond_truth'], g['echoes'], g['watch'], g['realclock'], g['sink'])
+                orig = fresh(g['sp'], g['cond_truth'], g['echoes'], g['watch'], g['realclock'], g['sink'], g['dunder'])
                 for k in range(g['b']):
                     orig.play(g['script'][k])
                 CUR[0] = orig
